@@ -183,8 +183,16 @@ impl Remover {
                         marker,
                         Some(current + (end_cursor - start_cursor).max(0) + 1),
                     ));
-                    if start_cursor < end_cursor {
-                        acc.extend(child_markers[start_cursor..end_cursor].to_owned());
+                    for (child_marker, child_pair) in child_markers[start_cursor..end_cursor].iter()
+                    {
+                        // Pair indices of children are relative to child_markers.
+                        let child_pair = match child_pair {
+                            Some(pair) if start_cursor <= *pair && *pair < end_cursor => {
+                                Some(*pair - start_cursor + current + 1)
+                            }
+                            _ => None,
+                        };
+                        acc.push((child_marker.clone(), child_pair));
                     }
                     acc.push((end_marker, Some(current)));
                 }
